@@ -52,7 +52,8 @@ pub struct FeelDate(i32, u8, u8);
 
 impl std::fmt::Display for FeelDate {
   fn fmt(&self, f: &mut std::fmt::Formatter<'_>) -> std::fmt::Result {
-    write!(f, "{:04}-{:02}-{:02}", self.0, self.1, self.2)
+    let sign = if self.0 < 0 { "-" } else { "" };
+    write!(f, "{}{:04}-{:02}-{:02}", sign, self.0.unsigned_abs(), self.1, self.2)
   }
 }
 
